@@ -339,6 +339,12 @@ def MutStepStrong (ss : SymSet) (pl : Nat) (pre post : Ind) (n : Nat) : Prop :=
 instance (ss pl pre post n) : Decidable (MutStepStrong ss pl pre post n) := by
   unfold MutStepStrong; infer_instance
 
+/-- executable form of `MutStepStrong` (the exons of `post` are computed once) -/
+def mutStepStrongB (ss : SymSet) (pl : Nat) (pre post : Ind) (n : Nat) : Bool :=
+  let ch := changedLoci pre post
+  let ex := exons post
+  decide (MutStep ss pl pre post) && ch.all (fun l => ex.contains l) && decide (ch.length = n)
+
 def OnePoint (frm to post : Ind) : Prop :=
   ∃ cut, cut < frm.rows ∧ (if 2 < frm.rows then 1 ≤ cut ∧ cut < frm.rows - 1 else cut = 1) ∧
     ∀ i, i < frm.rows → ∀ c, c < frm.cols →
@@ -357,6 +363,13 @@ def TreeX (frm to post : Ind) : Prop :=
   ∃ start ∈ exons frm,
     ∀ i, i < frm.rows → ∀ c, c < frm.cols →
       post.gene i c = if Locus.mk i c ∈ reach frm start then frm.gene i c else to.gene i c
+
+/-- executable form of `TreeX` (the copied set is computed once per candidate start) -/
+def treeXB (frm to post : Ind) : Bool :=
+  (exons frm).any (fun start =>
+    let r := reach frm start
+    (List.range frm.rows).all (fun i => (List.range frm.cols).all (fun c =>
+      post.gene i c == if r.contains (Locus.mk i c) then frm.gene i c else to.gene i c)))
 
 instance (frm to post) : Decidable (OnePoint frm to post) := by unfold OnePoint; infer_instance
 instance (frm to post) : Decidable (TwoPoints frm to post) := by unfold TwoPoints; infer_instance
@@ -382,6 +395,20 @@ instance (frm to post) : Decidable (CrossDir frm to post) := by unfold CrossDir;
 def CrossStep (lhs rhs post : Ind) : Prop := CrossDir rhs lhs post ∨ CrossDir lhs rhs post
 
 instance (lhs rhs post) : Decidable (CrossStep lhs rhs post) := by unfold CrossStep; infer_instance
+
+def flavourB (k : Nat) (frm to post : Ind) : Bool :=
+  if k = 0 then decide (OnePoint frm to post)
+  else if k = 1 then decide (TwoPoints frm to post)
+  else if k = 3 then decide (Uniform frm to post)
+  else treeXB frm to post
+
+def crossDirB (frm to post : Ind) : Bool :=
+  decide (post.rows = to.rows) && decide (post.cols = to.cols) && decide (post.best = to.best) &&
+  decide (post.xover = frm.xover) && decide (post.age = max to.age frm.age) &&
+  flavourB frm.xover frm to post
+
+/-- executable form of `CrossStep` -/
+def crossStepB (lhs rhs post : Ind) : Bool := crossDirB rhs lhs post || crossDirB lhs rhs post
 
 def Inside (x : Ind) (l : Locus) : Prop := l.idx < x.rows ∧ l.cat < x.cols
 
